@@ -50,11 +50,13 @@ type immCfg struct {
 	Nested bool
 	// ZeroCopyJSON: Config.JSONDecoder is a decoder whose strings are views of its input
 	ZeroCopyJSON bool
+	// Stream: Config.StreamRequestBody (a request body is a stream until it is first read)
+	Stream bool
 }
 
 func (c immCfg) String() string {
-	return fmt.Sprintf("custom=%v cs=%v strict=%v unescape=%v proxy=%d split=%v reducemem=%v nested=%v zerocopyjson=%v",
-		c.Custom, c.CaseSens, c.Strict, c.Unescape, c.Proxy, c.Split, c.ReduceMem, c.Nested, c.ZeroCopyJSON)
+	return fmt.Sprintf("custom=%v cs=%v strict=%v unescape=%v proxy=%d split=%v reducemem=%v nested=%v zerocopyjson=%v stream=%v",
+		c.Custom, c.CaseSens, c.Strict, c.Unescape, c.Proxy, c.Split, c.ReduceMem, c.Nested, c.ZeroCopyJSON, c.Stream)
 }
 
 // body kinds
@@ -67,6 +69,8 @@ type immShape struct {
 	Kind string
 	Fwd  bool // X-Forwarded-Proto / X-Forwarded-Host present
 	Port bool
+	// Chunked: the body is sent with Transfer-Encoding: chunked instead of a Content-Length
+	Chunked bool
 	// SameHost: every request of the run carries the same Host header, and the forwarding
 	// headers rotate (none / X-Forwarded-Proto / X-Forwarded-Proto + X-Forwarded-Host): scheme and
 	// effective host change while the Host header does not.
@@ -125,6 +129,14 @@ func genShape(r *gen.Rand) *immShape {
 	}
 	sh.Route = r.PickW(4, 1, 1)
 	sh.SameHost = r.Chance(1, 4)
+	switch sh.Kind {
+	case "json", "xml", "cbor", "form":
+		sh.Chunked = r.Chance(1, 4)
+		if sh.Kind != "cbor" && r.Chance(1, 4) {
+			sh.Len["jb"] = r.Range(4500, 7000) // a body larger than the server's read buffer
+			sh.Len["fv"] = r.Range(4500, 7000)
+		}
+	}
 	if r.Chance(1, 4) {
 		sh.Len["w2"] = r.Range(150, 400)
 	}
@@ -343,6 +355,21 @@ func genImmReq(r *gen.Rand, sh *immShape, idx int) *immReq {
 	raw.WriteString("Content-Type: " + ctype + "\r\n")
 	raw.WriteString("Accept: " + q.Accept + "\r\nAccept-Language: en-US, De;q=0.5\r\nAccept-Charset: UTF-8\r\nAccept-Encoding: GZip, Br\r\n")
 	raw.WriteString("Range: ru" + v["rgu"] + "=0-9\r\nIf-None-Match: W/\"" + v["xc"] + "\"\r\nCache-Control: Max-Age=0\r\nX-Requested-With: XMLHttpRequest\r\n")
+	chunked := sh.Chunked && len(q.Body) > 0 && (q.Method == "POST" || q.Method == "PUT")
+	if chunked {
+		raw.WriteString("Transfer-Encoding: chunked\r\n\r\n")
+		b := q.Body
+		for len(b) > 0 {
+			n := min(len(b), 1000+len(b)%977)
+			raw.WriteString(strconv.FormatInt(int64(n), 16) + "\r\n")
+			raw.Write(b[:n])
+			raw.WriteString("\r\n")
+			b = b[n:]
+		}
+		raw.WriteString("0\r\n\r\n")
+		q.Raw = raw.Bytes()
+		return q
+	}
 	if q.Method == "POST" || q.Method == "PUT" {
 		raw.WriteString("Content-Length: " + strconv.Itoa(len(q.Body)) + "\r\n")
 	}
@@ -620,8 +647,15 @@ func capture(c fiber.Ctx, q *immReq, cfg immCfg, s *capSet, matched, withResp bo
 	// other unknown tokens no content is asserted (stability only)
 	// two stacked codings: in which order they are to be undone is a matter of C07/C11, not of this
 	// check — the decoded content is not asserted, only that it stays what it was; BodyRaw is.
-	s.B("Body", c.Body(), q.Plain, bodyExp && !stacked(q.Shape.Kind) && (q.Shape.CEnc == "" || q.Shape.CEnc == "identity"))
-	s.B("BodyRaw", c.BodyRaw(), q.Body, bodyExp)
+	plainExp := bodyExp && !stacked(q.Shape.Kind) && (q.Shape.CEnc == "" || q.Shape.CEnc == "identity")
+	if len(q.V["pa"])%2 == 0 {
+		// which of the two is the first read of the body varies from request to request
+		s.B("Body", c.Body(), q.Plain, plainExp)
+		s.B("BodyRaw", c.BodyRaw(), q.Body, bodyExp)
+	} else {
+		s.B("BodyRaw", c.BodyRaw(), q.Body, bodyExp)
+		s.B("Body", c.Body(), q.Plain, plainExp)
+	}
 	if q.Shape.Kind == "form" || q.Shape.Kind == "multipart" {
 		s.S("FormValue", c.FormValue("fv"), v["fv"])
 	}
@@ -642,6 +676,41 @@ func capture(c fiber.Ctx, q *immReq, cfg immCfg, s *capSet, matched, withResp bo
 	labels := strings.Split(q.effHost(trusted), ".")
 	s.L("Subdomains", c.Subdomains(), labels[:len(labels)-2])
 	s.S("Method", c.Method(), q.Method)
+
+	// the same request through the c.Req() / c.Res() views
+	{
+		rq, rs := c.Req(), c.Res()
+		if matched {
+			s.S("Req.Params", rq.Params("pa"), v["pa"])
+			s.S("Req.Params", rq.Params("*"), v["w1"]+"/"+v["w2"])
+		}
+		s.S("Req.Path", rq.Path(), q.Path)
+		s.S("Req.OriginalURL", rq.OriginalURL(), q.Target)
+		s.S("Req.Protocol", rq.Protocol(), q.Proto)
+		s.S("Req.Query", rq.Query("qs"), v["qs"])
+		s.S("Req.Queries.value", rq.Queries()["qx"], v["qx"])
+		s.S("Req.Get", rq.Get("X-Custom"), v["xc"])
+		s.S("Req.Cookies", rq.Cookies("ck"), v["ck"])
+		s.S("Req.Host", rq.Host(), q.effHost(trusted))
+		s.S("Req.Hostname", rq.Hostname(), hn)
+		s.B("Req.Body", rq.Body(), q.Plain, plainExp)
+		s.B("Req.BodyRaw", rq.BodyRaw(), q.Body, bodyExp)
+		s.S("Req.FormValue", rq.FormValue("qx"), v["qx"])
+		s.S("Req.IP", rq.IP(), noExp)
+		s.L("Req.IPs", rq.IPs(), []string{q.IP[0], q.IP[1]})
+		s.S("Req.BaseURL", rq.BaseURL(), q.effScheme(trusted)+"://"+q.effHost(trusted))
+		s.S("Req.Method", rq.Method(), q.Method)
+		s.S("Req.Port", rq.Port(), "40000")
+		s.L("Req.Subdomains", rq.Subdomains(), labels[:len(labels)-2])
+		if rg, err := rq.Range(1000); err == nil {
+			s.S("Req.Range.Type", rg.Type, "ru"+v["rgu"])
+		}
+		s.S("Req.Route.Path", rq.Route().Path, noExp)
+		s.S("Req.Accepts", rq.Accepts("text/html", "application/json"), noExp)
+		if withResp {
+			s.S("Res.Get", rs.Get("Rs"), v["hs"])
+		}
+	}
 
 	// struct- and slice-returning accessors, field by field
 	if rg, err := c.Range(1000); err == nil {
@@ -820,6 +889,7 @@ func immBuild(cfg immCfg, immutable bool, side *immSide) *fiber.App {
 	}
 	fc.EnableSplittingOnParsers = cfg.Split
 	fc.ReduceMemoryUsage = cfg.ReduceMem
+	fc.StreamRequestBody = cfg.Stream
 	if cfg.ZeroCopyJSON {
 		fc.JSONDecoder = zcJSONUnmarshal
 	}
@@ -1041,7 +1111,7 @@ func runImmutable(e *ev.Env) {
 	e.Cases("run", e.N(300, 20000), func(c *ev.Case) {
 		r := c.R
 		cfg := immCfg{Custom: r.Chance(1, 3), CaseSens: r.Bool(), Strict: r.Bool(), Unescape: r.Bool(), Proxy: r.Intn(5), Split: r.Bool(),
-			ReduceMem: r.Chance(1, 3), Nested: r.Chance(1, 3), ZeroCopyJSON: r.Chance(1, 3)}
+			ReduceMem: r.Chance(1, 3), Nested: r.Chance(1, 3), ZeroCopyJSON: r.Chance(1, 3), Stream: r.Chance(1, 3)}
 		sh := genShape(r)
 		n := gen.Pick(r, []int{1, 3, 10})
 		judgeImm(e, c, cfg, sh, n, r)
@@ -1237,6 +1307,18 @@ func immCorpus(e *ev.Env) {
 		sh.Kind, sh.Route, sh.Fwd = "none", 0, false
 		sh.Len["w2"] = 300
 		judgeImm(e, c, immCfg{}, sh, 1, c.R)
+	})
+	e.Corpus("streamed-body-chunked", func(c *ev.Case) {
+		sh := genShape(c.R)
+		sh.Kind, sh.Route, sh.CEnc, sh.Chunked = "json", 0, "", true
+		sh.Len["jb"] = 5000
+		judgeImm(e, c, immCfg{Stream: true}, sh, 1, c.R)
+	})
+	e.Corpus("streamed-body-length-framed", func(c *ev.Case) {
+		sh := genShape(c.R)
+		sh.Kind, sh.Route, sh.CEnc, sh.Chunked = "xml", 0, "", false
+		sh.Len["jb"] = 6000
+		judgeImm(e, c, immCfg{Stream: true}, sh, 3, c.R)
 	})
 	e.Corpus("splitting-commas-form", func(c *ev.Case) {
 		sh := genShape(c.R)
